@@ -176,6 +176,9 @@ func (c *vfC14Case) drawWrite(rt *rapid.T, label string) *vfC14Write {
 	}
 	t := ts[rapid.IntRange(0, len(ts)-1).Draw(rt, label+"target")]
 	w.parent, w.implicit = t.parent, t.implicit
+	if w.implicit && win != nil {
+		w.seen = win.id
+	}
 	switch {
 	case t.pushOnly:
 		w.push = true
